@@ -39,8 +39,9 @@ class Measurer:
         return out
 
 
-def build_rec(case, m, syn=None, ordered=None, costs=None):
-    inp = case.build(costs or DEFAULT_COSTS)
+def build_rec(case, m, syn=None, ordered=None, costs=None, inp=None):
+    """inp: reuse an existing input object (several reconciliations of one input share its trees, as the results of one solver call do)."""
+    inp = inp if inp is not None else case.build(costs or DEFAULT_COSTS)
     onode = {n.name: n for n in inp.object_tree.traverse()}
     snode = {n.name: n for n in inp.species_lca.tree.traverse()}
     mapping = {onode[case.O.name[k]]: snode[case.S.name[v]] for k, v in m.items()}
@@ -116,6 +117,20 @@ def run_layout(rec, orientation, sizes, per_kind, params, swap=False, render=Tru
     finally:
         LAYOUT.measure_nodes = saved
     return lay, text, meas
+
+
+def draw_prior(case, inp, prior_m):
+    """History: ANOTHER reconciliation of the same input object is laid out and rendered first (vertical and horizontal, unit sizes) -
+    what drawing every solution of an 'all' result does.  Its own correctness is some other item's business; failures are ignored here."""
+    if prior_m is None:
+        return
+    rec0, _, _ = build_rec(case, {int(k): v for k, v in prior_m.items()}, inp=inp)
+    unit = [(1, 1)] * len(KINDS)
+    for o in (Orientation.VERTICAL, Orientation.HORIZONTAL):
+        try:
+            run_layout(rec0, o, unit, True, {}, render=True)
+        except Exception:
+            pass
 
 
 def frac_str(values):
